@@ -24,7 +24,9 @@ Inductive case :=
        (cols : list string) (rows : list (list cell))(* the result set *)
        (o_status : result unit)                      (* observed: the query's nil / error class / panic *)
        (o_dest : list dst)                           (* observed: destination, one entry per element *)
-       (o_tx : option (option err * list call * bool * nat)).
+       (o_tx : option (option err * list call * bool * nat))
+| CPair (first second : case).                       (* two queries issued one after the other in one process
+                                                        (destination types of the same NAME, different tags) *)
                                                      (* inside Transact: its result, begin/commit/rollback
                                                         log, whether a panic escaped Transact, body runs *)
 
@@ -61,7 +63,7 @@ Definition run_query (rows_mode strict : bool) (sh : dshape) (cols : list string
     end.
 
 (* --- model agreement: the transcription reproduces the observation exactly --- *)
-Definition model_ok (c : case) : bool :=
+Definition model_ok1 (c : case) : bool :=
   match c with
   | CTx cached sw cx bound f b o_res o_calls o_escaped o_runs o_seen =>
       let (r, cs) := if cached then cached_transact_ctx_with sw true cx bound f b
@@ -82,6 +84,14 @@ Definition model_ok (c : case) : bool :=
           Nat.eqb runs (transact_ctx_runs true no_faults)
       | _, _ => false
       end
+  | CPair _ _ => false
+  end.
+
+(* the model keeps no state between queries: each query of a sequence is predicted on its own *)
+Definition model_ok (c : case) : bool :=
+  match c with
+  | CPair a b => model_ok1 a && model_ok1 b
+  | _ => model_ok1 c
   end.
 
 (* --- the property, on the observation alone --- *)
@@ -154,7 +164,7 @@ Definition spec_orm (rows_mode strict : bool) (sh : dshape) (cols : list string)
   | _ => true
   end.
 
-Definition spec_ok (c : case) : bool :=
+Definition spec_ok1 (c : case) : bool :=
   match c with
   | CTx cached sw cx bound f b o_res o_calls o_escaped o_runs o_seen =>
       (* the outcome table (on the body as it runs under this ctx: only its own ctx-bound statements can be
@@ -172,4 +182,13 @@ Definition spec_ok (c : case) : bool :=
           in_tx via &&
           tx_allowed no_faults (body_of_query o_status) r cs (if esc then Some 0 else None) runs
       end
+  | CPair _ _ => false
+  end.
+
+(* the mapping is per destination TYPE: every query of a sequence satisfies the clauses for ITS OWN shape,
+   whatever was queried before (into whatever type, of whatever name) *)
+Definition spec_ok (c : case) : bool :=
+  match c with
+  | CPair a b => spec_ok1 a && spec_ok1 b
+  | _ => spec_ok1 c
   end.
